@@ -63,6 +63,30 @@ Admissible(c) ==
   /\ \A i \in 1..Nn(c) : MeanSign(Col(RawVecs(c), i)) # 0
   /\ c.nmodes = 0 \/ \E S \in SUBSET (1..Nn(c)) : Cardinality(S) = c.nmodes /\ \A i \in S, j \in (1..Nn(c)) \ S : QLess(Dist(c, i), Dist(c, j))
 
+(* ---- first-order perturbation theory (distinct eigenvalues): exact directional derivatives of the selected       ---- *)
+(* ---- eigenpairs along a symmetric direction (dA, dB)                                                               ---- *)
+(*   d lambda_i = q_i' (dA - lambda_i dB) q_i                                                                             *)
+(*   d q_i = sum_{j # i} q_j [q_j' (dA - lambda_i dB) q_i] / (lambda_i - lambda_j)  -  1/2 (q_i' dB q_i) q_i              *)
+CONSTANT Dirs    \* set of [dA, dB]: symmetric integer matrices (by size: only those of matching size are used)
+MatSub(X, Y) == Tup([i \in 1..Len(X) |-> Tup([j \in 1..Len(X[i]) |-> QSub(X[i][j], Y[i][j])])])
+MatScale(a, X) == Tup([i \in 1..Len(X) |-> Tup([j \in 1..Len(X[i]) |-> QMul(a, X[i][j])])])
+VecScale(a, u) == Tup([k \in 1..Len(u) |-> QMul(a, u[k])])
+VecAdd(u, w) == Tup([k \in 1..Len(u) |-> QAdd(u[k], w[k])])
+RECURSIVE VecSumF(_, _, _, _)
+VecSumF(f, lo, hi, n) == IF lo > hi THEN Tup([k \in 1..n |-> QZero]) ELSE VecAdd(f[lo], VecSumF(f, lo + 1, hi, n))
+Deriv(c, dir) ==
+  LET n == Nn(c)  R == RawVecs(c)  ord == Order(c)  E == Expected(c)
+      dA == IntM(dir.dA)  dB == IntM(dir.dB)
+      one(a) ==
+        LET i == ord[a]  qi == E.vecs[a]  li == QI(c.d[i])
+            Mi == MatSub(dA, MatScale(li, dB))
+            Mq == MatVec(Mi, qi)
+            dl == DotQ(qi, Mq)
+            terms == [j \in 1..n |-> IF j = i THEN Tup([k \in 1..n |-> QZero])
+                                       ELSE VecScale(QDiv(DotQ(Col(R, j), Mq), QI(c.d[i] - c.d[j])), Col(R, j))]
+            dq == VecAdd(VecSumF(terms, 1, n, n), VecScale(QNeg(QDiv(DotQ(qi, MatVec(dB, qi)), QI(2))), qi)) IN
+        [dl |-> dl, dq |-> dq] IN
+  [dA |-> dir.dA, dB |-> dir.dB, dlam |-> Tup([a \in 1..Len(ord) |-> one(a).dl]), dQ |-> Tup([a \in 1..Len(ord) |-> one(a).dq])]
 VARIABLES cs, done
 vars == <<cs, done>>
 Init == cs \in Cases /\ Admissible(cs) /\ done = FALSE
@@ -81,4 +105,19 @@ C11 ==
 
 Emit == done => PrintT(<<"EIG", ToJson([A |-> AMat(cs), B |-> BMat(cs), std |-> (cs.l = LInv(cs.l)),
                                        nmodes |-> cs.nmodes, sigma |-> cs.sigma, lam |-> Expected(cs).lam, vecs |-> Expected(cs).vecs])>>)
+EmitDer == done => PrintT(<<"EIGD", ToJson([A |-> AMat(cs), B |-> BMat(cs), std |-> (cs.l = LInv(cs.l)), nmodes |-> cs.nmodes, sigma |-> cs.sigma,
+                                            lam |-> Expected(cs).lam, vecs |-> Expected(cs).vecs,
+                                            der |-> {Deriv(cs, dir) : dir \in {dd \in Dirs : Len(dd.dA) = Nn(cs)}}])>>)
+(* consistency of the perturbation formulas with the defining equations, to first order:                                  *)
+(*   (dA - lam dB - dlam B) q + (A - lam B) dq = 0   and   2 q' B dq + q' dB q = 0                                          *)
+DerivOK ==
+  LET A == AMat(cs)  B == BMat(cs)  E == Expected(cs) IN
+  \A dir \in {dd \in Dirs : Len(dd.dA) = Nn(cs)} :
+     LET D == Deriv(cs, dir)  dA == IntM(dir.dA)  dB == IntM(dir.dB) IN
+     \A a \in 1..Len(E.lam) :
+        LET q == E.vecs[a]  lam == QI(E.lam[a])  dq == D.dQ[a]  dl == D.dlam[a]
+            r1 == VecAdd(MatVec(MatSub(MatSub(dA, MatScale(lam, dB)), MatScale(dl, B)), q), MatVec(MatSub(A, MatScale(lam, B)), dq)) IN
+        /\ \A k \in 1..Nn(cs) : QIsZero(r1[k])
+        /\ QIsZero(QAdd(QMul(QI(2), DotQ(q, MatVec(B, dq))), DotQ(q, MatVec(dB, q))))
+
 =============================================================================
